@@ -57,11 +57,36 @@ def run(ctx):
                               {"key_len": len(longkey)}, found_input=True)
                 break
         crl.stop()
+    fails, mism = [], []
+    # "parses to exactly the requested fields" under every daemon configuration: a daemon with a small --max-ttl and a peer
+    # with the default one sharing the key: the TTL written into the credential is min(requested or default, the EMITTING
+    # daemon's --max-ttl), as the independent parser sees it and as the peer reports it
+    for mt in ((600, 1, 299) if ctx.thorough else (600,)):
+        crs = credcorr.CredRig(ctx, exe, orc, key=key, tag="c10mt", max_ttl=mt)
+        crp = credcorr.CredRig(ctx, exe, orc, key=key, tag="c10peer")
+        if crs.ok and crp.ok:
+            for ttl in (0, 1, mt - 1 if mt > 1 else 1, mt, mt + 1, 3000, 3600, 3601, 0xFFFFFFFF):
+                r, diff = crs.encode_both(uid=21, gid=22, cipher=0, mac=5, zip_=0, ttl=ttl, data=b"ttl field")
+                ctx.count(("emit-ttl", mt, ttl))
+                if diff:
+                    mism.append(crs.mismatches[-1])
+                if r is None or r["error_num"] != 0:
+                    continue
+                want = min(mt, 300) if ttl == 0 else min(ttl, mt)
+                p_ = crs.o.parse(r["data"])
+                d, mm, diff = crp.decode_both(r["data"], uid=1, gid=1)
+                got_p = p_ and p_["msg"]["ttl"]
+                got_d = d and d["error_num"] == 0 and d["ttl"]
+                if got_p != want or got_d != want:
+                    fails.append({"why": "a daemon with --max-ttl=%d asked for ttl=%d emits a credential whose TTL field is %s (independent "
+                                         "parse) / %s (peer daemon with the same key), the requested-and-capped value is %d"
+                                         % (mt, ttl, got_p, got_d, want), "cred_hex": r["data"].hex()})
+        crs.stop()
+        crp.stop()
     cr = credcorr.CredRig(ctx, exe, orc, key=key, tag="c10")
     if not cr.ok:
         ctx.violation("daemon does not start", {"obligation": "start"}, found_input=False)
         return
-    fails, mism = [], []
     dist = {"daemon->ref": 0, "ref->daemon": 0, "pyref->daemon": 0, "daemon->pyref": 0, "frozen": 0}
     combos = [(c, m, z) for c in (0, 2, 3, 4, 5) for m in (2, 3, 4, 5, 6) for z in (0, 2, 3) if not (c == 5 and m in (2, 3, 4))]
     if not ctx.thorough:
@@ -144,6 +169,29 @@ def run(ctx):
                         (31337, 31338, 77, len(addr), b"minted by the python reference"):
                     fails.append({"why": "munged does not accept/echo a v3 credential built in Python (mac %d zip %d addr_len %d): %s"
                                          % (m, z, len(addr), d and (d["error_num"], d["error_str"], d["addr_len"]))})
+    # the largest interiors: compressible payloads at the top of the accepted request size, compressed (zip header announcing
+    # an uncompressed INNER of more than 1 MiB) - emitted, parsed by the reference, and accepted back
+    big_sizes = (1048536, 1048555, 1048556) if ctx.thorough else (1048556,)
+    dist["largest-compressed"] = 0
+    for n in big_sizes:
+        for z in ((2, 3) if ctx.thorough else (3,)):
+            data = (b"compressible %d " % n) * (n // 16 + 1)
+            data = data[:n]
+            r, diff = cr.encode_both(uid=1000, gid=1000, cipher=4, mac=5, zip_=z, data=data)
+            ctx.count(("largest-compressed", n, z))
+            dist["largest-compressed"] += 1
+            if diff:
+                mism.append(cr.mismatches[-1])
+            if r is None or r["error_num"] != 0:
+                fails.append({"why": "a %d-byte compressible payload (zip %d) is not encoded: %s" % (n, z, r and (r["error_num"], r["error_str"]))})
+                continue
+            d, mm, diff = cr.decode_both(r["data"], uid=1, gid=1)
+            if diff:
+                mism.append(cr.mismatches[-1])
+            if d is None or d["error_num"] != 0 or d["data"] != data or d["zip"] != z:
+                fails.append({"why": "munged rejects a conforming credential it (and the reference) emitted: %d-byte compressible payload, zip %d, "
+                                     "uncompressed interior %d bytes: %s" % (n, z, n + 41, d and (d["error_num"], d["error_str"], d["data_len"])),
+                              "cred_hex": r["data"].hex()[:3000]})
     # SPEC -> daemon (C10_spec_accepted): credentials built by V3Accept.v3_build, the functional form of the documented
     # relation — arbitrary IV of the cipher's length, arbitrary salt, origin address of 0 or 4 bytes, a realm, compression
     # kept whether or not it shrank the data (incompressible payloads), every cipher x MAC x zip the daemon can decode
